@@ -18,7 +18,7 @@ PROJ = {
     "out": key_plain("out"), "ret": key_plain("ret"), "len": key_plain("len"),
     "cap": key_plain("cap"), "snap": key_plain("snap"),
     "ev_user": ev_filter("DCN"), "ev_alloc": ev_filter("ARF"), "ev_backend": ev_filter("BXZM"),
-    "ev_clone": ev_filter("C"), "ev_drop": ev_filter("D"),
+    "ev_clone": ev_filter("C"), "ev_drop": ev_filter("D"), "raw": key_plain("raw"),
 }
 
 def be_class(be):
@@ -37,7 +37,7 @@ PROPS = {
                 release=True, leak_free=True),
     "C03": dict(families=["elem", "range", "clone", "random"], keys=["ev_user", "snap"], cfgs=any_cfg,
                 release=False, leak_free=True),
-    "C05": dict(families=["elem", "range", "clone", "capacity", "random"], keys=["out", "ev_backend", "snap"],
+    "C05": dict(families=["elem", "range", "clone", "capacity", "random"], keys=["out", "ev_backend", "snap", "raw"],
                 cfgs=lambda c: c["be"] in ("reloc", "heap"), release=False, leak_free=True),
     "C06": dict(families=["fuse", "liar"], keys=["out", "ret", "len", "snap", "ev_user"],
                 cfgs=lambda c: (c["be"] in ("heap", "reloc") and c["sz"] in (0, 3, 8, 24, 160)) or (c["be"] in ("stack:72", "stackn:4:96", "stack:0") and c["sz"] == 24),
